@@ -448,6 +448,7 @@ func (w *World) Tables(tx *types.Transaction, extra []*Key, hashCoq string) (coq
 			if p, _ := hx.Recover(func() { k = KeyOf(pk) }); p {
 				continue
 			}
+			w.P.Local(b)
 			dItems = append(dItems, fmt.Sprintf("(%s, %s)", w.P.CB(b), w.P.Coq(k)))
 			if k.Weak && !seenW[k.id()] {
 				seenW[k.id()] = true
@@ -455,6 +456,7 @@ func (w *World) Tables(tx *types.Transaction, extra []*Key, hashCoq string) (coq
 			}
 			addCand(k)
 		}
+		w.P.Local(g.Verify)
 		addH(g.Verify) // the fallback of GetSignatureAddresses (C17)
 	}
 	for _, k := range extra {
@@ -558,3 +560,6 @@ func (w *World) EmitAbs(tx *types.Transaction, views []SetView, abs map[string]A
 		}
 	}
 }
+
+// LinearPushes is linearPushes, for the C17 driver.
+func LinearPushes(prog []byte) [][]byte { return linearPushes(prog) }
